@@ -761,8 +761,13 @@ func runC12(c *gen.Ctx) error {
 		c.Do("checks", c12ChecksIn{Reqs: reqs, Stderr: true})
 		c.E.Count("kind:checks-sequence-stderr")
 	}
+	// (i.e) overlapping requests on one handler instance, and whole stderr streams with lines of
+	// any length read by the real runner (c12overlap.go)
+	c12OverlapGen(c)
+	c12StreamGen(c)
 	// (iii) the real reference server as createServer builds it (c12real.go)
 	c12RealGen(c)
+	c12RealOverlapGen(c)
 	return nil
 }
 
